@@ -44,7 +44,7 @@ def build(seed, n):
                 return t + "\n#" + back
 
             convs.append(("emit+parse:{}:{}".format(kind, i), emit_then_parse))
-        spec = gen_function(rng, force_partial_defaults=(i % 3 == 0), p_two_announcements=0.15)
+        spec = gen_function(rng, force_partial_defaults=(i % 3 == 0), p_two_announcements=0.15, p_over_documented=0.3)
 
         def parse_fn(spec=spec):
             from doctrans import parse
